@@ -80,6 +80,9 @@ impl ChannelRegion for US915Region {
 }
 
 impl FixedChannelRegion for US915Region {
+    // RP002: Join-Requests use DR0 (SF10/125 kHz) and DR4 (SF8/500 kHz)
+    const JOIN_DR_125KHZ: DR = DR::_0;
+    const JOIN_DR_500KHZ: DR = DR::_4;
     fn uplink_channels() -> &'static [u32; 72] {
         &UPLINK_CHANNEL_MAP
     }
